@@ -167,8 +167,14 @@ func findFunctionCallViolation(
 	switch fun := call.Fun.(type) {
 	case *ast.Ident:
 		// Direct function call: CreateMockData()
-		funcName := fun.Name
-		if ctx.testOnlyFuncs.Match(*ctx.currentPkgPath, funcName, funcName) {
+		// The identifier must denote a package-level function; a variable, parameter
+		// or closure that merely shares the name is not the annotated function.
+		fn, ok := ctx.pass.TypesInfo.Uses[fun].(*types.Func)
+		if !ok || fn.Pkg() == nil || fn.Type().(*types.Signature).Recv() != nil {
+			return nil
+		}
+		funcName := fn.Name()
+		if ctx.testOnlyFuncs.Match(fn.Pkg().Path(), funcName, funcName) {
 			return &TestOnlyViolation{
 				Pos:         call.Pos(),
 				TestOnlyObj: funcName,
